@@ -34,7 +34,8 @@ def gen_original(g, name, prefix, others):
             acts.append({"k": "raw", "ctx": None, "text": "let me if %s" % g.choice(["counter of framer >= %d" % g.randint(1, 4), "counter of framer <= %d" % g.randint(2, 6),
                                                                                     ".sim.x1 >= %d" % g.randint(0, 2), "counter of framer != %d" % g.randint(1, 4)])})
         if others and i == 0 and g.random() < 0.6:
-            acts.append({"k": "clone", "orig": g.choice(others), "as": "mine", "needs": None})
+            for _ in range(g.choice([1, 1, 2])):       # nested insular clones, sometimes two side by side in one frame
+                acts.append({"k": "clone", "orig": g.choice(others), "as": "mine", "needs": None})
         if i < n - 1:
             need = g.choice(["counter of framer >= %d" % g.randint(1, 5), "recurred >= %d" % g.randint(0, 3), ".sim.x0 >= %d" % g.randint(0, 3)])
             acts.append({"k": "raw", "ctx": None, "text": "go next if %s" % need})
@@ -218,7 +219,8 @@ def watch_rear_raze(res):
                             gone = [n for n in before if n not in after]
                             st.add(actor.store.stamp, "rear" if isinstance(actor, acting.Rearer) else "raze", fr.name,
                                    kw.get("who") or kw["original"].name, before, after,
-                                   [n for n in gone if n in framing.Framer.Names or n.split("_", 1)[-1] in kw["framer"].auxes],
+                                   [n for n in gone if n in framing.Framer.Names or n.split("_", 1)[-1] in kw["framer"].auxes] +
+                                   sorted(n for n in framing.Framer.Names if any(n.startswith(x + "_") for x in gone)),   # clones nested in a razed clone
                                    [(a.name, bool(a.insular), bool(a.razeable)) for a in fr.auxes])
                             return r
                         return action
@@ -250,7 +252,7 @@ class C12(Check):
                    "whether a razed clone that is 'done' but still entered gets its exit actions is outside this statement (probe razed-while-entered only)",
                    "program B (textual copies as ordinary auxiliaries) is the statement's 'what its original would produce alone'"]
     required_probes = ["insular", "named", "nested", "two-clones-of-one-original", "relative-entry-need", "reared", "razed-all", "razed-first", "razed-last",
-                       "raze-left-others", "raze-spared-non-razeable", "freed-name-taken-again", "dirty-plan", "razed-while-entered"]
+                       "raze-left-others", "raze-spared-non-razeable", "freed-name-taken-again", "dirty-plan", "razed-while-entered", "two-nested-clones-in-one-frame"]
     quick_runs = 3000
     thorough_runs = 150000
     shrink_fields = []
@@ -290,6 +292,8 @@ class C12(Check):
             out.probe("nested")
         if "let me if counter of framer" in text:
             out.probe("relative-entry-need")
+        if any(sum(1 for a in f["acts"] if a["k"] == "clone") >= 2 for o in plan["origs"] for f in o["frames"]):
+            out.probe("two-nested-clones-in-one-frame")
         epochs = {}
         if rear:
             out.probe("reared")
@@ -411,7 +415,7 @@ class C12(Check):
                                 "tick %d raze %s in %s: before %r after %r; razeable insular (reared) clones there %r, expected to go %r\n%s" % (tick, who, host, before, after, cand, want, sa))
                     return
                 if still:
-                    out.violate("raze-name", "a razed clone's name is still registered", "tick %d: %r\n%s" % (tick, still, sa))
+                    out.violate("raze-name", "the name of a razed clone (or of a clone nested in it) is still registered", "tick %d: %r\n%s" % (tick, still, sa))
                     return
                 if want:
                     out.probe("razed-" + who)
